@@ -54,7 +54,13 @@ RULE = (
     "id the model assigns it (its last digest; the source's id for filter/update_meta copies; the key for loaded "
     "trees) with hash_info == oid, serialise (as_bytes) to the canonical reference listing of its own entries "
     "whatever form it was parsed from, equal a fresh rebuild + reference when it is clean, and "
-    "every HashInfo key handed to load must be unchanged. "
+    "every HashInfo key handed to load must be unchanged. The first tree's entries carry drawn, mostly non-empty Meta "
+    "(size / isexec / etag ...) and read-only renderings - as_list(with_meta=True), as_bytes(with_meta=True), as_list(), "
+    "as_bytes(), 0-2 drawn per step - are applied to it BEFORE its first digest and to the step's tree right after every "
+    "step's operation (so also between an add and the next digest), before the harness serialises anything itself: the "
+    "id / canonical bytes clauses above must hold whatever was rendered first (the id does not depend on file metadata "
+    "nor on having looked at it), and a with-meta rendering must list the same (relpath, digest) pairs plus exactly the "
+    "tree's own per-entry Meta.to_dict() (re-parsing the with-meta text loses nothing). "
     "FS: a generated tree (in a third of the cases 1-3 files/directories carry awkward names as above; names that "
     "are not valid UTF-8 only when no State is used) materialised twice in two drawn creation orders (second copy on tmpfs or on the "
     "disk temp dir), staged with build() under checksum_jobs in {None,1,2,8}, state none / cold+warm, optionally "
@@ -125,6 +131,9 @@ ASSUMPTIONS = [
     "library's own output (no raw UTF-8: Tree.load opens the object in text mode with the locale's encoding); the "
     "with-meta form is read back with hash_name= (without it HashInfo.from_dict cannot pick the hash out of an entry "
     "that carries metadata) and only for md5 / md5-dos2unix; for sha256 the drawn form falls back to 'permuted'",
+    "live half: as_list()/as_bytes() with either with_meta value are read-only (tree.py renders from _dict on every "
+    "call on HEAD); the metadata expected in a with-meta rendering is read from the tree's own entries (iteration), "
+    "not modelled independently (update_meta / load merge metadata in ways this property does not state)",
     "touch/chmod never change file contents; mtimes are set by the harness with os.utime(ns=...)",
     "view routes: a size of None / a missing size key in info() means 'unknown' (fsspec convention, e.g. HTTP without "
     "Content-Length; DataIndex._info_from_entry reports None for entries without a size; hash.file_md5 handles "
@@ -342,6 +351,8 @@ def pub_cases(draw):
     }
 
 
+RENDERS = ["as_list_meta", "as_bytes_meta", "as_list_meta", "as_bytes_meta", "as_list", "as_bytes"]
+LIVE_METAS = [m for m in METAS if m] * 2 + [{}]
 LSTEP = st.fixed_dictionaries({
     "op": st.sampled_from(["filter", "filter", "update_meta", "store_load", "store_load", "load_again", "get_obj",
                            "add", "add", "add", "digest", "digest", "digest", "digest", "digest"]),
@@ -353,6 +364,8 @@ LSTEP = st.fixed_dictionaries({
     "p": st.integers(0, 7),
     # store_load: the form in which the listing sits in the store (see STORED_FORMS)
     "stored": st.one_of(st.none(), STORED),
+    # read-only renderings of tree `a` right after the op, BEFORE the harness looks at anything
+    "render": st.lists(st.sampled_from(RENDERS), max_size=2),
 })
 
 
@@ -366,6 +379,9 @@ def live_cases(draw):
         "keys": draw(PKEYS),
         "oids": draw(st.lists(st.sampled_from(XOIDS), min_size=1, max_size=6)),
         "steps": draw(st.lists(LSTEP, min_size=3, max_size=10)),
+        # Meta of the first tree's entries (mostly non-empty) and renderings done before its first digest
+        "metas": draw(st.lists(st.sampled_from(LIVE_METAS), min_size=1, max_size=3)),
+        "first": draw(st.lists(st.sampled_from(RENDERS), max_size=2)),
     }
 
 
@@ -1068,12 +1084,46 @@ def run_live(case, ctx):
         E0 = entries_of(case)
         odb = ops.make_odb("mem", "/odb", hash_name=algo)
         viols, classes = [], [f"live:algo={algo}"]
-        t0 = mk_tree(E0, sorted(E0), [{}], algo)
-        t0.digest(name=algo)
-        live = [{"t": t0, "E": dict(E0), "id": ref_oid(joined(E0), algo), "clean": True, "own": True, "how": "built"}]
+        t0 = mk_tree(E0, sorted(E0), case.get("metas") or [{}], algo)
         keys = []  # (HashInfo object handed to Tree.load, the value the harness put into it)
         shared = False
         judged = False
+
+        def render(r, kinds, where):
+            """Read-only renderings of one live tree (as_list / as_bytes, with and without metadata), done before
+            the harness itself serialises anything. The with-meta flavour must list the same pairs plus exactly
+            the tree's own per-entry metadata; the bare flavour is judged by check_all / the next digest."""
+            t = r["t"]
+            for kind in kinds:
+                if viols:
+                    return
+                if not kind.endswith("_meta"):
+                    t.as_list() if kind == "as_list" else t.as_bytes()
+                    classes.append(f"live:render={kind}")
+                    continue
+                got = t.as_list(with_meta=True) if kind == "as_list_meta" else json.loads(t.as_bytes(with_meta=True))
+                want = {"/".join(k): {**m.to_dict(), hkey(algo): h.value, "relpath": "/".join(k)} for k, m, h in t}
+                rich = any(m.to_dict() for _, m, _ in t)
+                classes.append(f"live:render={kind}" + ("(meta-non-empty)" if rich else ""))
+                if rich:
+                    r["meta_rendered"] = True
+                pairs = {e.get("relpath"): e.get(hkey(algo)) for e in got}
+                if len(got) != len(r["E"]) or pairs != joined(r["E"]):
+                    viols.append(Viol(f"live:with-meta-listing-other-pairs:{r['how']}",
+                                      f"{where}: {kind} of a tree ({r['how']}) does not list its (relpath, digest) "
+                                      f"pairs: {str(got)[:200]}"))
+                elif {e["relpath"]: e for e in got} != want:
+                    viols.append(Viol(f"live:with-meta-listing-metadata:{r['how']}",
+                                      f"{where}: {kind} of a tree ({r['how']}) lists the right pairs but not the "
+                                      f"entries' metadata: got {str(got)[:160]}, the entries hold "
+                                      f"{str(sorted(want.values(), key=lambda e: e['relpath']))[:160]}"))
+
+        r0 = {"t": t0, "E": dict(E0), "id": ref_oid(joined(E0), algo), "clean": True, "own": True, "how": "built"}
+        render(r0, case.get("first") or [], "before the first digest")
+        if r0.get("meta_rendered"):
+            classes.append("live:digest-after-with-meta-render")
+        t0.digest(name=algo)
+        live = [r0]
 
         def check_all(where):
             for n, r in enumerate(live):
@@ -1188,14 +1238,21 @@ def run_live(case, ctx):
                     ra["clean"] = False
                 Ea[k] = st_["oid"]
                 ta.add(k, Meta(size=n), HashInfo(algo, st_["oid"]))
+                ra["meta_rendered"] = False
                 classes.append("live:add")
             elif op == "digest":
+                if ra.get("meta_rendered"):
+                    # the listing was rendered WITH metadata since the last add: the id must not notice
+                    classes.append("live:digest-after-with-meta-render")
                 ta.digest(name=algo)
                 if shared and (not ra["clean"] or ra["id"] != ref_oid(joined(Ea), algo)):
                     judged = True  # a re-digest that really changes this tree's id while copies are alive
                 ra.update(id=ref_oid(joined(Ea), algo), clean=True, own=True, name=algo)
                 classes.append("live:digest:" + ra["how"])
-            check_all(f"after step {n} ({op} on tree #{st_['a'] % len(live)})")
+            if st_.get("render") and not viols:
+                render(ra, st_["render"], f"step {n} ({op}, then {'+'.join(st_['render'])} on tree #{st_['a'] % len(live)})")
+            check_all(f"after step {n} ({op}{'+' + '+'.join(st_['render']) if st_.get('render') else ''} "
+                      f"on tree #{st_['a'] % len(live)})")
         if len(live) > 1:
             classes.append("live:trees>=2")
         if keys:
